@@ -11,6 +11,7 @@ Context {F W : Type}.
 Variable f1 : F -> list Qc -> list Qc.
 Variable f2 : F -> list Qc -> nat -> list Qc.
 Variable wsem : W -> wndarg.
+Variable falsy : F -> bool.
 Notation val := (val F W).
 Notation kwl := (kwl F W).
 
@@ -35,7 +36,7 @@ Theorem stft_identity_reconstructs gc (layers : list kwl) func (sig : list Qc) s
   spec_lookup layers "ola_normalize" = Some (VBool false) ->
   (forall x, f1 func x = x) ->
   exists out,
-    stft_model f1 f2 wsem gc layers func sig = SSamples out None /\
+    stft_model f1 f2 wsem falsy gc layers func sig = SSamples out None /\
     length out = (length (blocks_model size hop 0%Qc sig) * hop + size - hop)%nat /\
     forall n, (size - hop <= n < length (blocks_model size hop 0%Qc sig) * hop)%nat ->
               nth n out 0%Qc = nth n sig 0%Qc.
@@ -50,8 +51,8 @@ Proof.
   2:{ intros n Hn. rewrite ola_spec_nth by (unfold ola_len; lia).
       destruct (spec_wnd_resolve size _ _ Hw) as [_ Lw].
       apply cola_sum; try assumption. intros k j Hk Hj. unfold bl in *. apply blocks_nth; lia. }
-  pose proof (stft_model_meets_promise f1 f2 wsem gc layers func sig) as P.
-  assert (Ep : stft_promise f1 f2 wsem gc layers func sig = PSamples (ola_spec size hop w bl)).
+  pose proof (stft_model_meets_promise f1 f2 wsem falsy gc layers func sig) as P.
+  assert (Ep : stft_promise f1 f2 wsem falsy gc layers func sig = PSamples (ola_spec size hop w bl)).
   2:{ rewrite Ep in P. exact P. }
   clear P. unfold stft_promise. rewrite Hsize.
   assert (Ehop : match spec_lookup layers "hop" with
@@ -70,7 +71,7 @@ Proof.
   assert (E2 : forallb (fun k => is_own k || is_ola_key k) (all_keys layers) = true).
   { apply forallb_forall. intros k Hk. specialize (Hkeys k Hk). unfold ident_keys, own_keys in Hkeys.
     simpl in Hkeys. repeat (destruct Hkeys as [Hkeys|Hkeys]; [subst k; reflexivity|]). contradiction. }
-  rewrite E2. cbn [negb]. rewrite Htr, Hitr, Hbef, Haft, Hola. cbn [is_stage andb negb].
+  rewrite E2. cbn [negb]. rewrite Htr, Hitr, Hbef, Haft, Hola. cbn [is_stage is_stage2 andb negb].
   assert (Ewnd : wnd_of_val wsem match spec_lookup layers "wnd" with Some v => v | None => VNone end = WNone).
   { destruct (spec_lookup layers "wnd") as [v|]; [subst v|]; reflexivity. }
   rewrite Ewnd. cbn [spec_wnd].
